@@ -366,7 +366,10 @@ impl<'a> Gen<'a> {
                 format!("({n} {})", self.layer())
             }
             K::TapHold => {
-                let v = self.rng.usize(7);
+                // tap-hold-except-keys never times out by design; inside a virtual key that is
+                // pressed and released by a physical key it waits for a release that is itself
+                // queued behind it, so it is not generated there
+                let v = self.rng.usize(if c.in_vkey { 6 } else { 7 });
                 let t = self.timeout0();
                 let h = self.timeout();
                 let mut ct = c;
